@@ -67,6 +67,41 @@ Theorem C16_others_keep_flowing :
 Proof. exact others_keep_flowing. Qed.
 Print Assumptions C16_others_keep_flowing.
 
+(* replacing, deleting a rule or deleting all ends the old client: a client installed at any time is
+   either still the client of its id, or it has been unregistered from the messages hub and cancelled *)
+Theorem C16_installed_is_live_or_cancelled :
+  forall ops id g, In (EInstall id g) (trace ops) ->
+    (exists c, clk id (clients (final ops)) = Some c /\ cgen c = g) \/
+    (In (ECancel g) (trace ops) /\ In (EUnreg g) (trace ops)).
+Proof. exact installed_is_live_or_cancelled. Qed.
+Print Assumptions C16_installed_is_live_or_cancelled.
+
+(* in particular, when the last word on an id is a delete or a delete-all, every client ever made for
+   that id has been cancelled and unregistered *)
+Theorem C16_deleted_rule_has_no_client :
+  forall ops id g, latest ops id = None -> In (EInstall id g) (trace ops) ->
+    In (ECancel g) (trace ops) /\ In (EUnreg g) (trace ops).
+Proof. exact deleted_rule_has_no_client. Qed.
+Print Assumptions C16_deleted_rule_has_no_client.
+
+Example C16_deleted_witness :
+  let h := [Add (mkrule 1 10 100); Add (mkrule 2 10 200); Delete 1; Add (mkrule 2 11 201); DeleteAll]%N in
+  latest h 1%N = None /\ latest h 2%N = None /\
+  In (EInstall 1 0) (trace h) /\ In (EInstall 2 1) (trace h) /\ In (EInstall 2 2) (trace h) /\
+  In (ECancel 2) (trace h).
+Proof. vm_compute. repeat split; auto 20. Qed.
+
+(* ids arrive by name: only the exact string "deleteAll" is read as the reserved id *)
+Theorem C16_reserved_is_exact_word :
+  forall name n, n <> reserved -> (id_of_name name n = reserved <-> name = "deleteAll"%string).
+Proof. exact reserved_is_exact_word. Qed.
+Print Assumptions C16_reserved_is_exact_word.
+
+Example C16_reserved_word_witness :
+  id_of_name "/deleteAll" 5 = 5%N /\ id_of_name "deleteAll/" 6 = 6%N /\ id_of_name "deleteall" 7 = 7%N /\
+  id_of_name "" 8 = 8%N /\ id_of_name "deleteAll" 9 = reserved.
+Proof. vm_compute. repeat split. Qed.
+
 (* non-vacuity: a history that replaces, deletes and re-adds rules; the hypotheses above are met *)
 Example C16_witness :
   let r1 := mkrule 1 10 100 in let r1' := mkrule 1 11 101 in let r2 := mkrule 2 10 200 in
